@@ -65,6 +65,16 @@ def gen(rng, thorough):
         h["script"] = [("inject_kill", 0, k, 14), ("inject", 1), ("answer", "fifo"), ("advance", 130000), ("advance", 76431), ("advance", 76431)]
         h["id"] = "c02-alrm-%d" % k
         hs.append(h)
+    # an injector that stalls (its client stops sending) before each of its calls, started by a program that had SIGALRM blocked: its
+    # 24-hour timer must kill it all the same, because 36 hours after the message file was last touched the daemon collects the
+    # file - an injector that is still alive then would go on to publish an envelope for a message that is gone
+    for k in (range(3, 13) if thorough else range(4, 13, 2)):      # (not while it holds the trigger open: the daemon would poll it)
+        idx += 1
+        h = base(idx, 2, rng)
+        h["script"] = [("inject_hold", 0, k, 1), ("inject", 1), ("answer", "fifo"), ("advance", 86401), ("signal_held", "ALRM"), ("advance", 50000),
+                       ("advance", 76431), ("advance", 76431), ("release",), ("answer", "fifo"), ("advance", 100)]
+        h["id"] = "c02-stalled-injector-%d" % k
+        hs.append(h)
     # injectors that abort (envelope cut short) and whose clean-up meets a failing call (each of their calls in turn): what they
     # leave behind is still a documented state, and is collected later
     for k in range(6, 16):
